@@ -43,7 +43,9 @@ def run(S):
     A3 = [' ', '\n', '\n\n\n\n']
     ALL = ('call', 'array', 'dict', 'params', 'destruct')
     if S.tier == 'quick':
-        f6 = twopass.explore(S, max_items=1, constructs=ALL, gaps=G4, ws_alts=A3, max_spaces=2)
+        # (the real-parser two-pass harness below covers all five constructs on whole documents; the relexing harness keeps the deeper gap enumeration for two)
+        f6 = twopass.explore(S, max_items=1, constructs=('call', 'params'), gaps=G4, ws_alts=A3, max_spaces=2)
+        f6 += twopass.explore(S, max_items=1, constructs=('array', 'dict', 'destruct'), gaps=[(), ('sp',), ('blk',)], ws_alts=[' ', '\n'], max_spaces=2)
         f6 += twopass.explore(S, max_items=2, constructs=('call',), gaps=[(), ('sp',)], ws_alts=A3, min_items=2)
     else:
         f6 = twopass.explore(S, max_items=1, constructs=ALL, max_spaces=4)
@@ -94,4 +96,12 @@ def run(S):
         else:
             S.inconclusive.append('%s: no solver model reproduced natively (%r)' % (lab, infos[0]))
     S.assumptions += comments.ASSUMPTIONS + lists.ASSUMPTIONS
+    # generated families (construct x spelling x context x comment position, ~4000 well-formed documents): a sample that depends on VERIF_SEED in the
+    # quick tier, all of them in the thorough tier
+    from . import reparse as _rpf
+    _fam = _rpf.families(S, seed=S.seed, limit=300 if S.tier == 'quick' else None)
+    if 'C03' == 'C09':
+        _fam = [d_ for d_ in _fam if '$' in d_]
+    _ff, _covf = _rpf.explore(S, _fam, tabs=(2,), widths=(0, 1 << 30) if S.tier == 'quick' else (0, 20, 40, 80, 1 << 30), prop='C03')
+    _rpf.report(S, 'C03', _ff)
     return S.finish(level='other', explanation=EXPLANATION, trusted=['mirsym encoder', 'std string contracts', 'pretty align/hang semantics'])
